@@ -13,12 +13,14 @@ CTX = {}
 
 def gen_case(rng):
     return {'kind': 'emitser', 'second_declarer': rng.random() < 0.5, 'order': 'last',
-            'ticks': rng.choice([1, 2, 3]), 'step': rng.choice([1, 2])}
+            'ticks': rng.choice([1, 2, 3]), 'step': rng.choice([1, 2]), 'init_units': rng.random() < 0.5}
 
 
 def corpus():
     return [{'kind': 'emitser', 'second_declarer': True, 'order': 'last', 'ticks': 2, 'step': 1},
-            {'kind': 'emitser', 'second_declarer': False, 'order': 'first', 'ticks': 1, 'step': 1}]
+            {'kind': 'emitser', 'second_declarer': False, 'order': 'first', 'ticks': 1, 'step': 1},
+            # the initial state is given in another (compatible) unit than the declared one
+            {'kind': 'emitser', 'second_declarer': False, 'order': 'last', 'ticks': 2, 'step': 1, 'init_units': True}]
 
 
 def run_impl(case):
@@ -77,8 +79,12 @@ def run_impl(case):
             procs = {'second': second, 'main': procs['main']} if case['order'] == 'first' else \
                 {'main': procs['main'], 'second': second}
         topology = {name: {'v': ('v',)} for name in procs}
+        init = None
+        if case.get('init_units'):
+            # the same values as the defaults, written in nanometres: rows show them in the declared units
+            init = {'v': {'q': 1500.0 * units.nm, 'qc': 500.0 * units.nm}}
         eng = Engine(processes=procs, topology=topology, emitter={'type': 'verif_rows', 'ctx_key': key},
-                     display_info=False, progress_bar=False)
+                     initial_state=init, display_info=False, progress_bar=False)
         eng.update(case['ticks'] * case['step'])
         # canonicalise rows for JSON
         obs['rows'] = [{'t': float(r['t']), 'v': {k: (x if not hasattr(x, 'magnitude') else repr(x))
@@ -89,6 +95,18 @@ def run_impl(case):
     finally:
         CTX.pop(key, None)
     return obs
+
+
+def _same_quantity(a, b):
+    """'!units[<magnitude> <unit>]' strings with equal units and magnitudes equal up to float noise"""
+    import re
+    ma, mb = re.fullmatch(r'!units\[(\S+) (.*)\]', a), re.fullmatch(r'!units\[(\S+) (.*)\]', b)
+    if not ma or not mb or ma.group(2) != mb.group(2):
+        return False
+    try:
+        return abs(float(ma.group(1)) - float(mb.group(1))) < 1e-9 * max(1.0, abs(float(mb.group(1))))
+    except ValueError:
+        return False
 
 
 def oracle(case, impl):
@@ -106,7 +124,7 @@ def oracle(case, impl):
             continue                   # a row of the second declarer's own tick
         want = {
             'q': f'!units[{1.5 + 0.5 * k} micrometer]',
-            'u': f'!units[{2000.0 + 1.0 * k} micrometer]' if k > 0 else None,
+            'u': f'!units[{2000.0 + 1.0 * k} micrometer]',
             'c': ['milli', (3 + k) * 1000.0],
             'qc': ['milli', (0.5 + 0.25 * k) * 1000.0],
             'n': 7 + k,
@@ -120,6 +138,8 @@ def oracle(case, impl):
             g = got.get(name)
             if isinstance(w, list) and isinstance(g, list) and len(g) == 2 and g[0] == w[0] \
                     and abs(g[1] - w[1]) < 1e-6:
+                continue
+            if isinstance(w, str) and isinstance(g, str) and _same_quantity(g, w):
                 continue
             if g != w:
                 return [f'row: at {r["t"]} variable {name} is emitted as {g!r}; its value through its units / '
